@@ -1,6 +1,6 @@
 //! Utility for Qt naming convention.
 
-use std::collections::HashMap;
+use std::collections::{HashMap, HashSet};
 
 /// File naming rules.
 #[derive(Clone, Debug, Eq, PartialEq)]
@@ -73,6 +73,7 @@ impl Default for FileNameRules {
 #[derive(Clone, Debug, Default)]
 pub struct UniqueNameGenerator {
     used_prefixes: HashMap<String, usize>, // prefix: next count
+    used_names: HashSet<String>,           // names returned by generate()
 }
 
 impl UniqueNameGenerator {
@@ -87,9 +88,14 @@ impl UniqueNameGenerator {
     {
         let prefix = prefix.as_ref();
         let count = self.used_prefixes.entry(prefix.to_owned()).or_insert(0);
-        let id = concat_number_suffix(prefix, *count);
-        *count += 1;
-        id
+        loop {
+            let id = concat_number_suffix(prefix, *count);
+            *count += 1;
+            // numbered name may conflict with the other prefix: e.g. ("foo", 1) vs ("foo1", 0)
+            if self.used_names.insert(id.clone()) {
+                return id;
+            }
+        }
     }
 
     /// Generates unique name starting with the given `prefix`, and not listed in
